@@ -26,12 +26,14 @@ pub struct TxwParams {
     pub stagger_ms: u64,
     /// stall the pre-use health check now and then (answered late, not never)
     pub hc_stall: bool,
+    /// prepared_statements_cache_size (0 = caching off)
+    pub cache: u64,
 }
 
 impl TxwParams {
     pub fn describe(&self) -> String {
         format!(
-            "mode={} pool_size={} clients={} txns={} workers={} abort%={} jitter_us={} replicas={} hc_stall={}",
+            "mode={} pool_size={} clients={} txns={} workers={} abort%={} jitter_us={} replicas={} hc_stall={} cache={}",
             self.mode,
             self.pool_size,
             self.clients,
@@ -40,7 +42,8 @@ impl TxwParams {
             self.abort_pct,
             self.jitter_us,
             self.replicas,
-            self.hc_stall
+            self.hc_stall,
+            self.cache
         )
     }
 }
@@ -60,6 +63,9 @@ pub fn build(p: &TxwParams) -> (Cell, Cfg) {
     let (cell, mut cfg) = simple_cell(&roles, p.pool_size, &p.mode);
     cfg.gset("worker_threads", &p.worker_threads.to_string());
     cfg.gset("connect_timeout", &p.connect_timeout_ms.to_string());
+    if p.cache > 0 {
+        cfg.pools[0].set("prepared_statements_cache_size", &p.cache.to_string());
+    }
     if p.hc_stall {
         cfg.gset("healthcheck_delay", "0");
         cfg.gset("healthcheck_timeout", "80");
